@@ -464,6 +464,8 @@ class Interp:
             for mod in g.files:
                 if ( mod, e.attr ) in g.modassigns:
                     return Interp( g, mod ).ev( g.modassigns[( mod, e.attr )], {} )
+            if e.attr.startswith( 'type_' ) or e.attr in ( 'path_ext_input', ):
+                return ( 'opaque', e.attr )
             return self.unk( 'module attr ' + e.attr, e )
         if isinstance( o, Node ):
             if e.attr == 'initial':
